@@ -62,7 +62,7 @@ impl Check for C15 {
         "C15"
     }
     fn plan(&self, tier: Tier) -> Plan {
-        Plan { cases: if tier == Tier::Quick { 5000 } else { 200_000 }, max_len: 4096 }
+        Plan { cases: if tier == Tier::Quick { 100_000 } else { 2_000_000 }, max_len: 4096 }
     }
     fn rule(&self) -> String {
         "choice sequence -> small lossless Modular image (gray/RGB, 0..3 extra channels incl. alpha (straight/premultiplied) and sub-sampled ones, depths 1..31 and float, non-square sizes) with a generated orientation 1..8, then a generated crop rectangle inside the oriented image. Oracle: with U = the render's own unoriented channel grids (converted by the defined sample-to-float map) and M_o the EXIF coordinate map written independently: JxlImage::width/height equal the oriented size; image_planar()[c], image_all_channels() (interleaved) and stream()/stream_no_alpha() (f32) equal U∘M_o sample for sample (f32 bit-exact), channel order colour then alpha for streams and colour then all extra channels for the buffers; u16/u8 streams equal clamp(round(f*max)) (ties: either neighbour); write_to_buffer in generated chunk sizes concatenates to the one-shot result; after set_image_region the buffers have the region's size and equal that rectangle of the full oriented picture. Non-trivial: orientation != 1 or >= 1 extra channel, and width != height; distinct by FNV of (codestream, crop).".into()
